@@ -16,22 +16,78 @@ def tname(prefix, t):
     return prefix + hashlib.sha1(json.dumps(t, sort_keys=True).encode()).hexdigest()[:8].upper().replace("0", "G")
 
 
-class Concretiser:
-    """Collects named type definitions while rendering type expressions in expanded (flow) YAML syntax."""
+ALIAS_SPELLING = {"int32": "int", "uint32": "uint", "int64": "long", "uint64": "ulong", "float32": "float", "float64": "double",
+                  "complexfloat32": "complexfloat", "complexfloat64": "complexdouble", "uint8": "byte"}
 
-    def __init__(self):
+
+class Concretiser:
+    """Collects named type definitions while rendering type expressions.
+
+    style (spelling choices, see spec/lang/Spelling.tla):
+      shorthand   use the string syntax (T?, T*, T*3, T[], T[,], T[2,3], K->V, [A, B]) wherever it can express the type
+      prim_alias  spell primitives by their aliases (int for int32, ...)
+      optional    "question" (T? / [null, T] as the shorthand chooses) or "union" (always [null, T])
+    The default is the fully expanded syntax with canonical primitive names."""
+
+    def __init__(self, style=None):
         self.defs = {}      # name -> yaml text of the definition
         self.order = []
+        self.style = dict(shorthand=False, prim_alias=False, optional="union", generics="none", generic_unions=False)
+        self.style.update(style or {})
+        self.lib_defs = {}      # definitions that live in the imported package "Lib" (generics == "imported")
+        self.lib_order = []
 
     def _define(self, name, text):
         if name not in self.defs:
             self.defs[name] = text
             self.order.append(name)
 
-    def node(self, t):
+    def prim(self, p):
+        return ALIAS_SPELLING.get(p, p) if self.style["prim_alias"] else p
+
+    def short(self, t):
+        """Shorthand string for t, or None if the string syntax cannot express it."""
         k = t["k"]
         if k == "prim":
-            return t["p"]
+            return self.prim(t["p"])
+        if k == "rec" and self.style["generics"] != "none" and t["fields"]:
+            n = self.node(t)
+            return n.strip('"') if not n.startswith("!") else None      # G<a, b> if every argument has a shorthand
+        if k in ("enum", "flags", "rec", "alias"):
+            return self.node(t)          # a name
+        inner = self.short(t["t"]) if "t" in t else None
+        def atom(x, node):
+            # postfix operators bind to a simple name, an already postfixed type or a parenthesised type
+            return x if node["k"] in ("prim", "enum", "flags", "rec", "alias", "opt", "vec", "fvec", "farr", "ndarr", "dynarr") else "(" + x + ")"
+        if k == "opt":
+            if inner is None or self.style["optional"] != "question":
+                return None
+            return atom(inner, t["t"]) + "?"
+        if k == "vec":
+            return None if inner is None else atom(inner, t["t"]) + "*"
+        if k == "fvec":
+            return None if inner is None else atom(inner, t["t"]) + "*%d" % t["n"]
+        if k == "farr":
+            return None if inner is None else atom(inner, t["t"]) + "[" + ", ".join(str(d) for d in t["dims"]) + "]"
+        if k == "ndarr":
+            return None if inner is None else atom(inner, t["t"]) + "[" + "," * (t["r"] - 1) + "]" if t["r"] > 1 else (None if inner is None else atom(inner, t["t"]) + "[()]" if False else None)
+        if k == "dynarr":
+            return None if inner is None else atom(inner, t["t"]) + "[]"
+        if k == "map":
+            a, b = self.short(t["kt"]), self.short(t["vt"])
+            if a is None or b is None or t["vt"]["k"] == "map":
+                return None
+            return atom(a, t["kt"]) + "->" + (b if t["vt"]["k"] != "union" else "(" + b + ")")
+        return None
+
+    def node(self, t):
+        k = t["k"]
+        if self.style["shorthand"] and k not in ("enum", "flags", "rec", "alias", "union", "prim"):
+            s = self.short(t)
+            if s is not None:
+                return json.dumps(s) if any(ch in s for ch in "[]{},*?&!|>") or s.startswith("(") else s
+        if k == "prim":
+            return self.prim(t["p"])
         if k == "opt":
             return "[null, %s]" % self.node(t["t"])
         if k == "vec":
@@ -46,18 +102,60 @@ class Concretiser:
             return "!array {items: %s}" % self.node(t["t"])
         if k == "map":
             return "!map {keys: %s, values: %s}" % (self.node(t["kt"]), self.node(t["vt"]))
+        if k == "union" and self.style["generic_unions"] and len(t["cases"]) >= 2:
+            # the union is spelled as an instance of a generic union alias GU<T1, .., Tn>: [T1, .., Tn] (same thing on the wire;
+            # its NDJSON form uses the parameter names as tags and is not described by the reference)
+            # only the first case is a type parameter: GU<T1>: [T1, <the other cases as written>]
+            rest = [self.node(c["t"]) for c in t["cases"][1:]]
+            gname = tname("U", [rest, t["nullable"]])
+            tags_ok = all(c["t"]["k"] in ("prim", "enum", "flags", "alias") for c in t["cases"][1:])
+            if tags_ok:
+                self._define(gname, "%s<T1>: [%sT1, %s]" % (gname, "null, " if t["nullable"] else "", ", ".join(rest)))
+                return "!generic {name: %s, args: [%s]}" % (gname, self.node(t["cases"][0]["t"]))
         if k == "union":
             cases = t["cases"]
             simple = all(c["t"]["k"] == "prim" and c["tag"] == c["t"]["p"] for c in cases)
             if simple:
-                return "[%s%s]" % ("null, " if t["nullable"] else "", ", ".join(c["t"]["p"] for c in cases))
+                return "[%s%s]" % ("null, " if t["nullable"] else "", ", ".join(self.prim(c["t"]["p"]) for c in cases))
             parts = (["null: null"] if t["nullable"] else []) + ["%s: %s" % (c["tag"], self.node(c["t"])) for c in cases]
             return "!union {%s}" % ", ".join(parts)
         if k == "enum" or k == "flags":
             name = tname("E" if k == "enum" else "F", t)
             vals = ", ".join("%s: %d" % (s["s"], tokens.from_digits(s["v"]["neg"], s["v"]["mag"])) for s in t["syms"])
-            self._define(name, "%s: !%s {base: %s, values: {%s}}" % (name, k, t["base"], vals))
+            self._define(name, "%s: !%s {base: %s, values: {%s}}" % (name, k, self.prim(t["base"]), vals))
             return name
+        if k == "rec" and self.style["generics"] != "none" and t["fields"]:
+            # the record is spelled as an instance of a generic record whose fields are its type parameters
+            # (defined locally or in the imported package Lib); on the wire this is the same record
+            # a field that is a union of a first case and primitive further cases keeps the union in the generic definition with only
+            # the first case as parameter (u: [T3, int32]); every other field type is a parameter as a whole
+            def open_union(ft):
+                return (self.style["generic_unions"] and ft["k"] == "union" and len(ft["cases"]) >= 2 and all(c["t"]["k"] == "prim" and c["tag"] == c["t"]["p"] for c in ft["cases"][1:])
+                        and ft["cases"][0]["t"]["k"] == "prim" and ft["cases"][0]["tag"] == ft["cases"][0]["t"]["p"])
+            params = ["T%d" % (i + 1) for i in range(len(t["fields"]))]
+            fdefs, argl = [], []
+            for f, p_ in zip(t["fields"], params):
+                if open_union(f["t"]):
+                    fdefs.append("%s: [%s%s, %s]" % (f["n"], "null, " if f["t"]["nullable"] else "", p_, ", ".join(self.prim(c["t"]["p"]) for c in f["t"]["cases"][1:])))
+                    argl.append(self.node(f["t"]["cases"][0]["t"]))
+                else:
+                    fdefs.append("%s: %s" % (f["n"], p_))
+                    argl.append(self.node(f["t"]))
+            gname = tname("G", fdefs)
+            gdef = "%s<%s>: !record {fields: {%s}}" % (gname, ", ".join(params), ", ".join(fdefs))
+            args = ", ".join(argl)
+            qual = "Lib." + gname if self.style["generics"] == "imported" else gname
+            if self.style["generics"] == "imported":
+                if gname not in self.lib_defs:
+                    self.lib_defs[gname] = gdef
+                    self.lib_order.append(gname)
+            else:
+                self._define(gname, gdef)
+            if self.style["shorthand"]:
+                shorts = [self.short(f["t"]["cases"][0]["t"] if open_union(f["t"]) else f["t"]) for f in t["fields"]]
+                if all(x is not None and "->" not in x for x in shorts):
+                    return json.dumps("%s<%s>" % (qual, ", ".join(shorts)))
+            return "!generic {name: %s, args: [%s]}" % (qual, args)
         if k == "rec":
             name = tname("R", t)
             fields = ", ".join("%s: %s" % (f["n"], self.node(f["t"])) for f in t["fields"])
@@ -79,6 +177,13 @@ class Concretiser:
 
     def model_text(self, protocols_text):
         return "\n".join(self.defs[n] for n in self.order) + "\n" + protocols_text
+
+    def lib_text(self):
+        return "\n".join(self.lib_defs[n] for n in self.lib_order) + "\n"
+
+    def definitions(self, protocols_text):
+        """All top-level definitions as separate texts (for reordering / splitting into files)."""
+        return [self.defs[n] + "\n" for n in self.order] + [protocols_text]
 
 
 # ----------------------------------------------------------------------------- JSON trees
